@@ -4,7 +4,9 @@
 (* with the logged arguments, return value, isEnabled() of every object after the step and the measured clock values           *)
 (* (microseconds since the start of the execution; t0 = read before the call, t = read after it / inside the callback).        *)
 (* What the loop does between two lines is not recorded: the silent steps PassBegin / Skip / PassEnd, and the service of a     *)
-(* timer that has no callback installed (only its flags change), may happen anywhere.                                         *)
+(* one-shot timer that has no callback installed (only its flags change), may happen anywhere.  The service of a periodic     *)
+(* timer without callback changes nothing that can be observed; the model then keeps its old bounds, which stay valid (lo is   *)
+(* a lower bound of every later expiry) -- tracking the unknown number of silent expirations would only multiply the states.   *)
 (*   fire    must be Dispatch of that timer: it exists, is initialised, enabled, watched, armed, has a callback, and the clock  *)
 (*           value read in the callback is not before the earliest possible expiry (never early)                               *)
 (*   remain  remainTime() must lie within the bounds RemainOK derives from the measured clock values (2 us of rounding slack)  *)
@@ -34,7 +36,7 @@ TReset == /\ IsEv("Reset")
           /\ lastfire' = NoFire /\ ub' = FALSE
 Silent == \/ \E S \in SUBSET T : S # {} /\ PassBegin(S)
           \/ \E i \in T : Skip(i)
-          \/ \E i \in T : ~tf[i].cbset /\ PeekT >= now /\ Dispatch(i, PeekT)
+          \/ \E i \in T : ~tf[i].cbset /\ tf[i].stop /\ PeekT >= now /\ Dispatch(i, PeekT)
           \/ PassEnd
 TNext ==
   \/ TReset
